@@ -517,7 +517,7 @@ pub fn arb_seq(max_count: u16) -> impl Strategy<Value = SeqCase> {
 // wire-level peer that only reads
 // ---------------------------------------------------------------------------
 
-pub const DUMP_RULE: &str = "session-dump: the RIB is filled with 1..4000 IPv4 routes (each with attributes of its own, or sharing attribute sets so that UPDATEs carry many prefixes) before a wire-level eBGP peer establishes; the peer reads the initial dump up to End-of-RIB. The bytes received must tile into well-formed BGP messages (marker, length within bounds, known type), parse with the repository's decoder, and announce exactly the prefixes in the RIB, each once. non-trivial := the dump is larger than 64 KiB (more than one transmit buffer)";
+pub const DUMP_RULE: &str = "session-dump: the RIB is filled with 1..4000 IPv4 routes (each with attributes of its own, or sharing attribute sets so that UPDATEs carry many prefixes) with 1..4 distinct next hops spread over the routes, before a wire-level external or internal peer establishes; the peer reads the initial dump up to End-of-RIB. The bytes received must tile into well-formed BGP messages (marker, length within bounds, known type), parse with the repository's decoder, and announce exactly the prefixes in the RIB, each once, each with the community of its own path and - towards an internal peer, where next hops are passed on - the next hop of its own path (towards an external peer: one next hop for all). non-trivial := the dump is larger than 64 KiB (more than one transmit buffer), or an internal peer is sent routes with several next hops";
 
 #[derive(Clone, Debug, Serialize, Deserialize)]
 pub struct DumpCase {
@@ -527,6 +527,12 @@ pub struct DumpCase {
     /// the peer receives Add-Path and the daemon only sends it (a one-way negotiation): the dump carries path identifiers
     #[serde(default)]
     pub addpath: bool,
+    /// the peer is an internal one (next hops are passed on as learned, not rewritten to the speaker's own address)
+    #[serde(default)]
+    pub ibgp: bool,
+    /// number of distinct next hops among the routes (0 and 1: one)
+    #[serde(default)]
+    pub nhs: u8,
 }
 
 pub fn check_dump(c: &DumpCase) -> CheckResult {
@@ -541,24 +547,31 @@ async fn dump(c: &DumpCase) -> CheckResult {
     use std::net::{IpAddr, Ipv4Addr};
     use std::sync::Arc;
     let src = fresh_loopback();
-    let cfg = NeighborCfg { addr: src, remote_asn: 65100, local_asn: 0, rs_client: false, rr_client: false, cluster_id: None, admin_down: false, holdtime: 90, families: vec![(Family::IPV4, if c.addpath { 2 } else { 0 })], prefix_limit: None, gr: None, llgr: None };
+    let peer_as = if c.ibgp { 65000 } else { 65100 };
+    let nhs = c.nhs.clamp(1, 4) as u32;
+    let cfg = NeighborCfg { addr: src, remote_asn: peer_as, local_asn: 0, rs_client: false, rr_client: false, cluster_id: None, admin_down: false, holdtime: 90, families: vec![(Family::IPV4, if c.addpath { 2 } else { 0 })], prefix_limit: None, gr: None, llgr: None };
     let mut p = WirePeer::new(65000, cfg).await?;
     let n = c.routes.max(1) as u32;
     let share = c.share.max(1) as u32;
     let source = Arc::new(rustybgp_table::Source::new(IpAddr::V4(Ipv4Addr::new(10, 0, 0, 77)), IpAddr::V4(Ipv4Addr::new(10, 0, 0, 1)), 65200, 65000, Ipv4Addr::new(7, 7, 7, 7), rustybgp_table::PeerRole::Ebgp));
     let mut want = BTreeSet::new();
+    // per prefix: (next hop as learned, community)
+    let mut want_detail: BTreeMap<String, (Ipv4Addr, u32)> = BTreeMap::new();
     for i in 0..n {
         let attrs = Arc::new(AttrSpec { origin: Some(0), as_path: Some(vec![Seg { t: SEG_SEQ, n: 1, base: 65200, asns: vec![] }]), communities: vec![0xfde8_0000 + i / share], ..Default::default() }.build());
         let net = v4(10 + (i >> 16) as u8, (i >> 8) as u8, i as u8, 0, 24);
         want.insert(format!("{net:?}"));
-        let _ = p.rig.tables.insert_route(source.clone(), Family::IPV4, PathNlri { path_id: 0, nlri: net }, Some(bgp::Nexthop::V4(Ipv4Addr::new(192, 0, 2, 1))), attrs, None, 1);
+        // next hops change from route to route inside one attribute group
+        let nh = Ipv4Addr::new(192, 0, 2, 1 + (i % nhs) as u8);
+        want_detail.insert(format!("{net:?}"), (nh, 0xfde8_0000 + i / share));
+        let _ = p.rig.tables.insert_route(source.clone(), Family::IPV4, PathNlri { path_id: 0, nlri: net }, Some(bgp::Nexthop::V4(nh)), attrs, None, 1);
     }
     p.connect().await?;
-    let mut caps = vec![bgp::Capability::MultiProtocol(Family::IPV4), bgp::Capability::FourOctetAsNumber(65100)];
+    let mut caps = vec![bgp::Capability::MultiProtocol(Family::IPV4), bgp::Capability::FourOctetAsNumber(peer_as)];
     if c.addpath {
         caps.push(bgp::Capability::AddPath(vec![(Family::IPV4, 1)]));
     }
-    if !p.establish(65100, 0, 0x0a00_0004, caps.clone()).await? {
+    if !p.establish(peer_as, 0, 0x0a00_0004, caps.clone()).await? {
         return Err(Failure::new("harness", "the session did not establish".to_string()));
     }
     // read until End-of-RIB (an UPDATE of 23 octets) closes the dump
@@ -586,6 +599,7 @@ async fn dump(c: &DumpCase) -> CheckResult {
     let mut codec = PeerCodec::negotiate(&caps[..2], &caps[..2]);
     codec.set_family(Family::IPV4, bgp::FamilyState { addpath_rx: c.addpath, addpath_tx: false });
     let mut got: BTreeMap<String, usize> = BTreeMap::new();
+    let mut got_detail: BTreeMap<String, (Option<std::net::IpAddr>, Option<u32>)> = BTreeMap::new();
     let mut pos = 0;
     let mut frames = 0;
     while pos < p.rx.len() {
@@ -601,9 +615,11 @@ async fn dump(c: &DumpCase) -> CheckResult {
             let parsed = codec.parse_message(&rest[..len]).map_err(|e| Failure::new("stream-framing", format!("message #{frames} (UPDATE of {len} octets) does not parse: {e:?}")).with("big", big))?;
             let msgs = bgp::validate_message(parsed, true).map_err(|e| Failure::new("stream-framing", format!("message #{frames} is refused: {e:?}")).with("big", big))?;
             for m in msgs {
-                if let Message::Update(Update::Reach { entries, .. }) = m {
+                if let Message::Update(Update::Reach { entries, nexthop, attr, .. }) = m {
+                    let comm = attr.iter().find(|a| a.code() == 8).and_then(|a| a.binary()).and_then(|b| b.get(..4).map(|x| u32::from_be_bytes([x[0], x[1], x[2], x[3]])));
                     for e in entries {
                         *got.entry(format!("{:?}", e.nlri)).or_default() += 1;
+                        got_detail.insert(format!("{:?}", e.nlri), (nexthop.map(|n| n.addr()), comm));
                     }
                 }
             }
@@ -622,11 +638,30 @@ async fn dump(c: &DumpCase) -> CheckResult {
     if got != want {
         return Err(Failure::new("routes-differ", format!("the initial dump announces {} prefixes, the RIB holds {} (first missing: {:?}, first extra: {:?})", got.len(), want.len(), want.difference(&got).next(), got.difference(&want).next())).with("big", big));
     }
-    Ok(CaseInfo::nt(big).class_if(big, "dump-over-64KiB"))
+    // (3) what each prefix carries: its own community, and its own next hop where the session passes next hops on
+    // (an internal peer); towards an external peer one next hop, the speaker's, for all
+    let mut ebgp_nh: Option<std::net::IpAddr> = None;
+    for (k, (nh, comm)) in &want_detail {
+        let Some((gnh, gcomm)) = got_detail.get(k) else { continue };
+        if *gcomm != Some(*comm) {
+            return Err(Failure::new("routes-differ", format!("{k} is announced with community {gcomm:x?}, the RIB's path has {comm:x}")).with("big", big).with("what", "attributes"));
+        }
+        if c.ibgp {
+            if *gnh != Some(IpAddr::V4(*nh)) {
+                return Err(Failure::new("routes-differ", format!("{k} is announced to an internal peer with next hop {gnh:?}, the RIB's path has {nh} ({nhs} distinct next hops among the routes)")).with("big", big).with("what", "next-hop"));
+            }
+        } else {
+            if ebgp_nh.is_some() && ebgp_nh != *gnh {
+                return Err(Failure::new("routes-differ", format!("{k} is announced to an external peer with next hop {gnh:?}, other prefixes of the same dump with {ebgp_nh:?}")).with("big", big).with("what", "next-hop"));
+            }
+            ebgp_nh = *gnh;
+        }
+    }
+    Ok(CaseInfo::nt(big || (c.ibgp && nhs > 1)).class_if(big, "dump-over-64KiB").class_if(c.ibgp, "internal-peer").class_if(nhs > 1, "several-next-hops"))
 }
 
 pub fn arb_dump() -> impl Strategy<Value = DumpCase> {
-    (prop_oneof![2 => 1u16..50, 2 => 800u16..1600, 3 => 1600u16..4000], prop_oneof![3 => Just(1u8), 1 => Just(2u8), 1 => Just(50u8)], prop::bool::weighted(0.35)).prop_map(|(routes, share, addpath)| DumpCase { routes, share, addpath })
+    (prop_oneof![2 => 1u16..50, 2 => 800u16..1600, 3 => 1600u16..4000], prop_oneof![3 => Just(1u8), 1 => Just(2u8), 1 => Just(50u8)], prop::bool::weighted(0.35), any::<bool>(), 1u8..5).prop_map(|(routes, share, addpath, ibgp, nhs)| DumpCase { routes, share, addpath, ibgp, nhs })
 }
 
 pub fn run(r: &Run) {
